@@ -480,6 +480,22 @@ DUMPS = []
 _orig = FC.check_definitions
 CUR = [None]
 
+# creation order of the statements of every flow (the blocks of flow.blocks only hold the reachable ones)
+def _track(name):
+    orig = getattr(FC.ControlFlow, name)
+    def wrapper(self, *a, **kw):
+        blk = self.block
+        n = len(blk.stats) if blk else 0
+        r = orig(self, *a, **kw)
+        if blk and len(blk.stats) > n:
+            if not hasattr(self, "_c21_created"):
+                self._c21_created = []
+            self._c21_created.extend(blk.stats[n:])
+        return r
+    setattr(FC.ControlFlow, name, wrapper)
+for _n in ("mark_assignment", "mark_argument", "mark_deletion", "mark_reference"):
+    _track(_n)
+
 def dump_flow(flow, node):
     entries = list(flow.assmts.keys())
     eidx = {e: i for i, e in enumerate(entries)}
@@ -506,6 +522,7 @@ def dump_flow(flow, node):
             d["allow"] = bool(getattr(nd, "allow_null", False))
             d["line"] = nd.pos[1] if getattr(nd, "pos", None) else 0
             d["nid"] = id(nd)
+            d["sid"] = id(st)
             S.append(d)
         B.append({"parents": sorted(bidx[p] for p in b.parents if p in bidx),
                   "orphans": sum(1 for p in b.parents if p not in bidx),
@@ -516,7 +533,13 @@ def dump_flow(flow, node):
         name = node.entry.name if node is not None and getattr(node, "entry", None) else None
     except Exception:
         pass
-    return {"entries": E, "blocks": B, "fname": name,
+    created = []
+    for st in getattr(flow, "_c21_created", []):
+        if isinstance(st, FC.NameAssignment):
+            created.append({"k": "D" if st.is_deletion else "A", "name": st.entry.name, "nid": id(st.lhs), "sid": id(st)})
+        else:
+            created.append({"k": "R", "name": st.entry.name, "nid": id(st.node), "sid": id(st)})
+    return {"entries": E, "blocks": B, "fname": name, "created": created,
             "line": (node.pos[1] if node is not None and getattr(node, "pos", None) else 0)}
 
 def patched(flow, directives):
@@ -636,6 +659,42 @@ def compare_flow(ctx, fl, ans, where):
             if m != expected_cls(s):
                 ctx.corr_break("flow:cf_hint", dict(where, block=i, stat=s["k"], line=s["line"]),
                                expected_cls(s), m)
+    return n
+
+
+def compare_core(ctx, fl, f, ans, where):
+    """model of the CFG construction (M_FlowCFG.visit + normalize + M_Flow.analyse, variant FX) vs the real
+    ControlFlowAnalysis: same statements in the same creation order, same NameNode sharing, and the same
+    cf_is_null / cf_maybe_null hint on every statement (X = block detached by normalize: no hint)."""
+    if ans == "NONE" or ans.startswith("!"):
+        ctx.corr_break("cfg:model", where, "CFG built and analysed by the code", ans)
+        return 0
+    wf, eae, nblocks, items = ans.split(" ")
+    items = [] if items == "-" else [x.split(":") for x in items.split(";")]
+    exp = f["created"]
+    real = fl["created"]
+    if wf != "1" or eae != "1":
+        ctx.corr_break("cfg:side-conditions", where, "well-formed program, edges leave from block ends",
+                       {"wf": wf, "edges_at_end": eae})
+    if [(c["k"], c["name"]) for c in real] != [(k, n) for _, k, n in exp] or len(items) != len(exp):
+        ctx.corr_break("cfg:stat-sequence", where, [(c["k"], c["name"]) for c in real],
+                       [(k, n) for _, k, n in exp])
+        return 0
+    l2n, n2l = {}, {}
+    for c, (l, _, _) in zip(real, exp):
+        if l2n.setdefault(l, c["nid"]) != c["nid"] or n2l.setdefault(c["nid"], l) != l:
+            ctx.corr_break("cfg:node-sharing", where, "label %d" % l, "distinct NameNodes")
+            return 0
+    hint = {}
+    for b in fl["blocks"]:
+        for s in b["stats"]:
+            hint[s["sid"]] = expected_cls(s)
+    n = 0
+    for i, (c, it) in enumerate(zip(real, items)):
+        n += 1
+        rc = hint.get(c["sid"], "X")
+        if rc != it[4]:
+            ctx.corr_break("cfg:cf_hint", dict(where, stat=i, kind=c["k"], name=c["name"]), rc, it[4])
     return n
 
 
